@@ -41,6 +41,9 @@ structure AMsg where
   rc : Option Nat := none          -- Result-Code
   auth : List Nat := []
   acct : List Nat := []
+  /-- application ids inside Vendor-Specific-Application-Id AVPs -/
+  vauth : List Nat := []
+  vacct : List Nat := []
   sid : Option String := none
   dc : Option Nat := none          -- Disconnect-Cause
   present : List Nat := []         -- codes (vendor 0) of the top-level AVPs on the wire
@@ -511,8 +514,9 @@ def receiveCer (s : St) (cid : Nat) (m : AMsg) (info : MsgInfo) : HR :=
         (r.1, if r.2 then none else some .typeError)
       else
         let isRelay := m.auth.contains 0xffffffff || m.acct.contains 0xffffffff
-        let sa := (authIds s).filter m.auth.contains
-        let sc := (acctIds s).filter m.acct.contains
+        -- (the relay test looks at the plain application ids only; the vendor-specific ones are added afterwards)
+        let sa := (authIds s).filter (m.auth ++ m.vauth).contains
+        let sc := (acctIds s).filter (m.acct ++ m.vacct).contains
         if sa.isEmpty && sc.isEmpty && !isRelay then
           let r := sendMessage s cid { ans0 with rc := some 5010 } true
           (r.1, if r.2 then none else some .typeError)
@@ -531,8 +535,8 @@ def receiveCea (s : St) (cid : Nat) (m : AMsg) : HR :=
     | none => (s, some .attributeError)
     | some oh =>
       let s := s.modConn cid fun c =>
-        { c with authApps := (authIds s).filter m.auth.contains, acctApps := (acctIds s).filter m.acct.contains,
-                 hostIdentity := oh }
+        { c with authApps := (authIds s).filter (m.auth ++ m.vauth).contains,
+                 acctApps := (acctIds s).filter (m.acct ++ m.vacct).contains, hostIdentity := oh }
       let s := assignPeerConnection s cid
       (flagConnectionAsReady s cid, none)
 
